@@ -29,6 +29,11 @@ RULE = ('Each run: up to 4 concurrent channel drivers on the client '
         'direction (any point from the version exchange on), a permanent '
         'stall with keepalive enabled, a DISCONNECT/close/abort issued by '
         'either side at a drawn moment, or cancellation of a caller task. '
+        'Drawn as well: a server session that ends itself from '
+        'connection_made() (exit status / close right behind the open '
+        'confirmation) and an asynchronous begin_auth() that takes a drawn '
+        'number of events. No connection may end with an exception that is '
+        'neither an asyncssh.Error nor an OSError. '
         'At quiescence every tracked await must be done once the connection '
         'is gone; callback logs must match the session/owner grammar; no '
         'channel, task, transport or listener may remain. Non-trivial = the '
@@ -50,7 +55,8 @@ PROBES = ['fault_rst', 'fault_eof', 'fault_stall', 'cut_before_auth',
           'cut_with_channels', 'cancelled_task',
           'op_error', 'sftp_started', 'teardown_server_side',
           'tunnel_opened', 'tunnel_by_name', 'cut_inner_leg',
-          'connect_cancelled', 'reading_paused']
+          'connect_cancelled', 'reading_paused', 'session_over_at_once',
+          'slow_begin_auth']
 
 _sandbox = [None]
 
@@ -197,6 +203,15 @@ def gen_plan(rng):
                                 'client_abort', 'cut_rst', 'cut_eof',
                                 'server_disconnect']),
         'window': rng.choice([100, 4096, 2097152]),
+        # a server session that is over before it began: exit status and/or
+        # close from connection_made(), i.e. right behind the confirmation
+        'early': rng.choice([None, None, None,
+                             {'nth': rng.below(3),
+                              'how': rng.choice(['exit', 'close',
+                                                 'exit_close'])}]),
+        # begin_auth() is a coroutine that needs this many events (and then
+        # says no authentication is needed)
+        'begin_auth_delay': rng.choice([0, 0, 0, 2, 10, 40]),
     }
 
 
@@ -218,6 +233,15 @@ def valid_plan(plan):
             for op in ch['c'] + ch['s']:
                 if op[0] == 'w' and not 0 <= op[1] <= 100000:
                     return False
+
+        e = plan.get('early')
+
+        if e is not None and (e['how'] not in ('exit', 'close', 'exit_close')
+                              or not 0 <= e['nth'] <= 8):
+            return False
+
+        if not 0 <= plan.get('begin_auth_delay', 0) <= 200:
+            return False
 
         return plan['window'] >= 1
     except (KeyError, TypeError, IndexError):
@@ -249,6 +273,16 @@ class Sess:
     def connection_made(self, chan):
         self.chan = chan
         self._ev('made')
+        early = self.run.plan.get('early')
+
+        if early and self.name == 'S%d' % early['nth']:
+            self.run.sim.probes['session_over_at_once'] += 1
+
+            if 'exit' in early['how']:
+                chan.exit(3)
+
+            if 'close' in early['how']:
+                chan.close()
 
     def session_started(self):
         self._ev('started')
@@ -314,6 +348,22 @@ class OpsServer(RecServer):
                          else 'server-%d' % len(run.server_owners))
         self.run = run
         self.run.server_owners.append(self)
+
+    def begin_auth(self, username):
+        delay = self.run.plan.get('begin_auth_delay', 0)
+
+        if not delay:
+            return False
+
+        async def later():
+            self.run.sim.probes['slow_begin_auth'] += 1
+
+            for _ in range(delay):
+                await self.run.sim.pause('begin_auth')
+
+            return False
+
+        return later()
 
     def session_requested(self):
         run = self.run
@@ -633,8 +683,15 @@ class Run:
             self.clients.append(c)
             return c
 
+        def accepted(conn):
+            # the listener's acceptor: one more callback of the owner
+            owner = conn.get_owner() if hasattr(conn, 'get_owner') else \
+                getattr(conn, '_owner', None)
+            world.event(getattr(owner, 'name', 'server'), 'accepted')
+
         self.acceptor = await asyncssh.listen(
             '127.0.0.1', 22, server_factory=lambda: OpsServer(world),
+            acceptor=accepted,
             **server_opts(encoding=None, window=plan['window'], **ka))
 
         if any(ch['kind'] == 'tunnel' for ch in plan['channels']):
@@ -900,6 +957,15 @@ def run_plan(plan, sched_seed=None, sched_replay=None):
             if len(owner.lost) > 1:
                 world.violation('lost-twice', '%s connection_lost called %d '
                                 'times' % (owner.name, len(owner.lost)))
+
+            for exc in owner.lost:
+                if exc is not None and not isinstance(exc, OK_ERRORS):
+                    # nothing a peer or a caller does may end a connection
+                    # with an exception escaping from the library
+                    world.violation(
+                        'internal-error', '%s: the connection was closed '
+                        'by an internal error: %r' % (owner.name, exc),
+                        sig=type(exc).__name__)
 
         # owner logs (one client, one server owner): lost exactly once, last
         for who in ['client'] + \
